@@ -113,8 +113,25 @@ TRepro ==
         /\ Diag("DRIFT", e.api # "public" \/ e.shallow_workers <= 1, [kind |-> "public entry point ran an iteration below depth 3 with more than one worker", fen |-> e.fen, depth |-> e.depth, workers |-> e.shallow_workers])
   /\ UNCHANGED <<pos, cur>>
 
+\* `weechess evaluate`: the lines it prints (the short "Peg" spelling of ChessText.tla) must be playable from the
+\* position, and a position with a legal move gets at least one line
+RECURSIVE PegFollow(_, _, _)
+PegFollow(p, toks, i) == IF i > Len(toks) THEN TRUE
+                         ELSE \E m \in { x \in Legal(p) : Peg(x) = Concat(toks[i]) } : PegFollow(Apply(p, m), toks, i + 1)
+TCliEval ==
+  /\ IsEvent("CliEval")
+  /\ LET e == Rec[l] p == Norm(e.pos) IN
+       IF ~LegalPosition(p) THEN TRUE ELSE
+       /\ Diag("C03", e.status = 0, [kind |-> "evaluate command did not exit normally", pos |-> ToFen(p), status |-> e.status])
+       /\ Diag("C03", Legal(p) = {} \/ Len(e.lines) >= 1, [kind |-> "evaluate command printed no line for a position with legal moves", pos |-> ToFen(p), depth |-> e.depth])
+       /\ Diag("C03", Legal(p) # {} \/ Len(e.lines) = 0, [kind |-> "evaluate command printed a line for a position without legal moves", pos |-> ToFen(p)])
+       /\ \A i \in 1..Len(e.lines) :
+            Diag("C03", Len(e.lines[i]) >= 1 /\ PegFollow(p, e.lines[i], 1),
+                 [kind |-> "line printed by the evaluate command is empty or not playable", pos |-> ToFen(p), depth |-> e.depth, seed |-> e.seed, line |-> [j \in 1..Len(e.lines[i]) |-> Concat(e.lines[i][j])]])
+  /\ UNCHANGED <<pos, cur>>
+
 TraceInit == l = 1 /\ pos = StartPos /\ cur = NoSearch
-TraceNext == TSearchStart \/ TReport \/ TSkip \/ TSearchEnd \/ TRepro
+TraceNext == TSearchStart \/ TReport \/ TSkip \/ TSearchEnd \/ TRepro \/ TCliEval
 Accepted == IF TLCGet("stats").diameter - 1 = Len(Rec) THEN PrintT(<<"ACCEPTED", Len(Rec)>>)
             ELSE PrintT(<<"STUCK", TLCGet("stats").diameter, Len(Rec)>>)
 =============================================================================
